@@ -13,7 +13,7 @@ import (
 // C03: exactly one highest-salience satisfied rule fires per cycle.
 
 func TestC03(t *testing.T) {
-	col := stats.New("C03", "rule sets of 2-7 rules with shallow, often simultaneously true conditions and saliences drawn from {omitted (default 0), 0, +-1, small, +-10, 100, MaxInt32, MinInt32} with deliberate ties; per cycle the conflict set is recomputed with fresh single-rule engines: at most one execution event, the fired rule's salience is maximal among the satisfied active rules, and the facts after the firing equal the reference replay of its complete action list before the next cycle's first evaluation. Each case runs 2-3 times with fresh instances (map order re-drawn). Non-trivial: a cycle with at least 2 satisfied rules of different salience. Distinct by rule text + state.",
+	col := stats.New("C03", "rule sets of 2-7 rules with shallow, often simultaneously true conditions and saliences drawn from {omitted (default 0), 0, +-1, small, +-10, 100, MaxInt32, MinInt32} with deliberate ties; per cycle the conflict set is recomputed with fresh single-rule engines: at most one execution event, the fired rule's salience is maximal among the satisfied active rules, and the facts after the firing equal the reference replay of its complete action list before the next cycle's first evaluation. Each case runs 2-3 times with fresh instances (map order re-drawn). A third of the cases with probes run another knowledge base on the same engine value from inside a probe invocation (one drawn invocation, or every invocation from it on); half of those get the conjunct F.PV(id, h) == h, h a location the rules write, in front of one condition. Non-trivial: a cycle with at least 2 satisfied rules of different salience. Distinct by rule text + state.",
 		"ties are broken arbitrarily by the engine; the validator accepts any maximal rule")
 	defer col.Flush()
 	rc := fullRuleCfg()
